@@ -379,7 +379,14 @@ def build_unit(template_path, repo):
         s = ln.strip()
         if s.startswith("//@extract"):
             d = _parse_directive(s)
-            frag_text, frags = extract_fragment(repo, d)
+            try:
+                frag_text, frags = extract_fragment(repo, d)
+            except LostAnchor:
+                if not d.get("optional"):
+                    raise
+                # `optional`: an item the extracted code may or may not reference (a helper
+                # constant); absent => nothing emitted, a dangling reference then fails to compile
+                frag_text, frags = "// (optional fragment not present in the current tree)", []
             nlines = frag_text.count("\n") + 1
             for f in frags:
                 f["unit_lines"] = [cur_line + f.pop("_rel_line"), cur_line + f.pop("_rel_line_end")]
